@@ -11,6 +11,6 @@ Definition the_env : env := {|
   e_http_post := Consts.http_post;
   e_ssh_banner := Consts.ssh_banner;
   e_ghost := Consts.ghost;
-  e_smb1_blob := Consts.smb1_blob;
-  e_smb2_blob := Consts.smb2_blob
+  e_smb_neg := Consts.smb_neg;
+  e_smb_chal := Consts.smb_chal
 |}.
